@@ -36,17 +36,21 @@ def oracle_svcstart(case, impl):
     if not m:
         return "unexpected harness output " + impl[:80]
     res, hooks, bound = m.group(1), int(m.group(2)), m.group(3)
-    if kind != "ok" and res == "started":
+    if kind not in ("ok", "died") and res == "started":
         return "Start returned nil although a listener could not be bound (%s): the failed start is treated as successful" % kind
-    if kind != "ok" and hooks > 0:
+    if kind not in ("ok", "died") and hooks > 0:
         return "the OnStarted hooks ran although a listener could not be bound (%s)" % kind
     if res == "started" and bound != "all":
         return "Start returned nil but the listen addresses are not all serving (%s)" % bound
     if res == "started" and hooks != 1:
         return "Start returned nil and the OnStarted hook ran %d times" % hooks
+    ms = re.search(r" stop=(\d+)$", impl)
+    if res == "started" and (ms is None or ms.group(1) != "1"):
+        return ("the service was started and then stopped (%s) but the OnStopped hooks ran %s times: router restore / deactivation "
+                "is skipped" % ("its listeners had died on their own in between" if kind == "died" else "normal stop", ms.group(1) if ms else "?"))
     if res == "error" and bound != "none":
         return "Start failed but left listeners bound (%s)" % bound
-    if kind == "ok" and res != "started":
+    if kind in ("ok", "died") and res != "started":
         return "every address was free but Start did not succeed (%s)" % res
     if kind in ("inuse", "notavail", "namedinuse") and res != "error":
         return "an address could not be bound (%s) but Start did not report the error (%s)" % (kind, res)
@@ -55,7 +59,7 @@ def oracle_svcstart(case, impl):
 SPEC = dict(
     lean_module="NV.Props.C16",
     areas=[dict(name="listen", n_quick=150, n_thorough=2400, shards_thorough=8, oracle=oracle_listen, timeout=900),
-           dict(name="svcstart", binary="main.test", n_quick=5, n_thorough=15, shards_thorough=1, oracle=oracle_svcstart, timeout=300)],
+           dict(name="svcstart", binary="main.test", n_quick=6, n_thorough=18, shards_thorough=1, oracle=oracle_svcstart, timeout=300)],
     level_text="The start-up/shutdown protocol of ListenAndServe is modelled as a small-step system with ANY number of listener threads; "
                "kernel-checked invariants over all interleavings give: no bound socket at return, the bind error is the one returned "
                "(no external stop), no deadlock after cancellation and a strictly decreasing rank (termination). The pre-repair protocol "
